@@ -287,3 +287,452 @@ class _insert(Contract):
         return [("start_idx", c.start_idx.t == l_len(S0.t)), ("remaining_points_not_earlier", ub)] + repr_all(c.self, l_len(S0.t) + t, lambda j: l_at(V.t, j))
 
     loops = {0: dict(inv=lambda c: _insert._inv(c))}
+
+
+TBuf = TList(TTuple([TReal, TInt]))
+
+
+@contract("tinyflux.index.Index.build")
+class _build(Contract):
+    """C06: build establishes Repr for exactly the given points, from any prior state."""
+    params = dict(self=IX, points=LPt)
+    modifies = ALL_FIELDS
+
+    @staticmethod
+    def ghost_exit(c):
+        return {"_S": c.points}
+
+    @staticmethod
+    def ensures(c):
+        return repr_self(c.self) + [("valid", c.self.t["_valid"].t), ("view_is_points", c.self.t["_S"].t == c.points.t)]
+
+    @staticmethod
+    def _inv(c):
+        pts, t = c.points.t, c.loop(0).t
+        buf = c.timestamp_buffer.t
+        j = z3.Int(fresh_name("j"))
+        f = c.self.t
+        return [
+            ("valid", f["_valid"].t),
+            ("time_lists_empty", z3.And(l_len(f["_timestamps"].t) == 0, l_len(f["_storage_pos_sorted_by_ts"].t) == 0)),
+            ("buffer_len", l_len(buf) == t),
+            ("buffer_items", z3.ForAll([j], z3.Implies(z3.And(0 <= j, j < t), z3.And(t_get(l_at(buf, j), 0) == ts(l_at(pts, j)), t_get(l_at(buf, j), 1) == j)),
+                                       patterns=[l_at(buf, j)])),
+        ] + repr_all(c.self, t, lambda i: l_at(pts, i), parts=("num", "meas", "tags", "fields"))
+
+    loops = {0: dict(inv=lambda c: _build._inv(c))}
+
+
+# ---------------------------------------------------------------- remove helpers
+
+
+def _keep(c):
+    R = c.r_items
+    return lambda e: z3.Not(z3.Select(R.t, e))
+
+
+def _r_in_range(c):
+    n, _ = view_of(c.self)
+    x = z3.Int(fresh_name("x"))
+    return ("r_items_in_range", z3.ForAll([x], z3.Implies(z3.Select(c.r_items.t, x), z3.And(0 <= x, x < n)), patterns=[z3.Select(c.r_items.t, x)]))
+
+
+@contract("tinyflux.index.Index._remove_measurements")
+class _remove_measurements(Contract):
+    params = dict(self=IX, r_items=SInt)
+    modifies = ("_measurements",)
+    locals = dict(new_measurements=MeasIx)
+
+    @staticmethod
+    def requires(c):
+        n, P = view_of(c.self)
+        return [("view_len", n >= 0)] + repr_meas(c.self.t["_measurements"], n, P)
+
+    @staticmethod
+    def ensures(c):
+        n, P = view_of(c.old.self)
+        return repr_meas(c.self.t["_measurements"], n, P, keep=_keep(c))
+
+    @staticmethod
+    def _inv(c):
+        n, P = view_of(c.old.self)
+        li = c.loop(0)
+        M0 = c.old.self.t["_measurements"]
+        done = lambda m: z3.And(z3.Select(d_dom(M0.t), m), li.extra["idx"](m) < li.t)
+        return [("index_untouched", c.self.t["_measurements"].t == M0.t)] + repr_meas(c.new_measurements, n, P, keep=_keep(c), only=done)
+
+    loops = {0: dict(inv=lambda c: _remove_measurements._inv(c))}
+
+
+@contract("tinyflux.index.Index._remove_fields")
+class _remove_fields(Contract):
+    params = dict(self=IX, r_items=SInt)
+    modifies = ("_fields",)
+    locals = dict(new_fields=FldIx)
+
+    @staticmethod
+    def requires(c):
+        n, P = view_of(c.self)
+        return [("view_len", n >= 0)] + repr_fields(c.self.t["_fields"], n, P)
+
+    @staticmethod
+    def ensures(c):
+        n, P = view_of(c.old.self)
+        return repr_fields(c.self.t["_fields"], n, P, keep=_keep(c))
+
+    @staticmethod
+    def _inv(c):
+        n, P = view_of(c.old.self)
+        li = c.loop(0)
+        F0 = c.old.self.t["_fields"]
+        done = lambda k: z3.And(z3.Select(d_dom(F0.t), k), li.extra["idx"](k) < li.t)
+        return [("index_untouched", c.self.t["_fields"].t == F0.t)] + repr_fields(c.new_fields, n, P, keep=_keep(c), only=done)
+
+    loops = {0: dict(inv=lambda c: _remove_fields._inv(c))}
+
+
+@contract("tinyflux.index.Index._remove_tags")
+class _remove_tags(Contract):
+    params = dict(self=IX, r_items=SInt)
+    modifies = ("_tags",)
+    locals = dict(new_tags=TagIx)
+
+    @staticmethod
+    def requires(c):
+        n, P = view_of(c.self)
+        return [("view_len", n >= 0)] + repr_tags(c.self.t["_tags"], n, P)
+
+    @staticmethod
+    def ensures(c):
+        n, P = view_of(c.old.self)
+        return repr_tags(c.self.t["_tags"], n, P, keep=_keep(c))
+
+    @staticmethod
+    def _done0(c):
+        T0 = c.old.self.t["_tags"]
+        l0 = c.loop(0)
+        return lambda k: z3.And(z3.Select(d_dom(T0.t), k), l0.extra["idx"](k) < l0.t)
+
+    @staticmethod
+    def _inv0(c):
+        n, P = view_of(c.old.self)
+        T0 = c.old.self.t["_tags"]
+        d0 = _remove_tags._done0(c)
+        return [("index_untouched", c.self.t["_tags"].t == T0.t)] + repr_tags(c.new_tags, n, P, keep=_keep(c), only=lambda k, v: d0(k))
+
+    @staticmethod
+    def _inv1(c):
+        n, P = view_of(c.old.self)
+        T0 = c.old.self.t["_tags"]
+        l0, l1 = c.loop(0), c.loop(1)
+        d0 = _remove_tags._done0(c)
+        cur = c.tag_key.t
+        inner0 = z3.Select(d_val(T0.t), cur)
+        only = lambda k, v: z3.Or(d0(k), z3.And(k == cur, z3.Select(d_dom(inner0), v), l1.extra["idx"](v) < l1.t))
+        return [
+            ("index_untouched", c.self.t["_tags"].t == T0.t),
+            ("current_key", z3.And(z3.Select(d_dom(T0.t), cur), l0.extra["idx"](cur) == l0.t, c.tag_values.t == inner0)),
+        ] + repr_tags(c.new_tags, n, P, keep=_keep(c), only=only)
+
+    loops = {0: dict(inv=lambda c: _remove_tags._inv0(c)), 1: dict(inv=lambda c: _remove_tags._inv1(c))}
+
+
+@contract("tinyflux.index.Index._remove_timestamps")
+class _remove_timestamps(Contract):
+    """C06: both time lists lose exactly the entries whose *storage position* is removed."""
+    params = dict(self=IX, r_items=SInt)
+    modifies = ("_timestamps", "_storage_pos_sorted_by_ts")
+    locals = dict(new_timestamps=LReal, new_positions=LInt)
+
+    @staticmethod
+    def requires(c):
+        n, P = view_of(c.self)
+        f = c.self.t
+        return [("view_len", n >= 0)] + repr_time(f["_timestamps"], f["_storage_pos_sorted_by_ts"], n, P)
+
+    @staticmethod
+    def ensures(c):
+        n, P = view_of(c.old.self)
+        f = c.self.t
+        return sparse_time(f["_timestamps"], f["_storage_pos_sorted_by_ts"], n, P, _keep(c))
+
+    @staticmethod
+    def _inv(c):
+        n, P = view_of(c.old.self)
+        f0 = c.old.self.t
+        TS0, POS0 = f0["_timestamps"].t, f0["_storage_pos_sorted_by_ts"].t
+        t = c.loop(0).t
+        keep = _keep(c)
+        out = [("index_untouched", z3.And(c.self.t["_timestamps"].t == TS0, c.self.t["_storage_pos_sorted_by_ts"].t == POS0))]
+        if not c.has("new_positions"):
+            # shape of the code before the repair: only the timestamps are filtered
+            return out + [("len", l_len(c.new_timestamps.t) <= t)]
+        nt, npos = c.new_timestamps.t, c.new_positions.t
+        m = l_len(npos)
+        a, b, j = z3.Int(fresh_name("a")), z3.Int(fresh_name("b")), z3.Int(fresh_name("j"))
+        return out + [
+            ("lengths", z3.And(l_len(nt) == m, m <= t)),
+            ("origin", z3.ForAll([a], z3.Implies(z3.And(0 <= a, a < m),
+                                                 z3.And(keep(l_at(npos, a)),
+                                                        z3.Exists([j], z3.And(0 <= j, j < t, l_at(POS0, j) == l_at(npos, a), l_at(TS0, j) == l_at(nt, a))))),
+                                 patterns=[l_at(npos, a), l_at(nt, a)])),
+            ("order_preserved", z3.ForAll([a, b], z3.Implies(z3.And(0 <= a, a < b, b < m),
+                                                             z3.And(l_at(nt, a) <= l_at(nt, b), l_at(npos, a) != l_at(npos, b))),
+                                          patterns=[z3.MultiPattern(l_at(npos, a), l_at(npos, b)), z3.MultiPattern(l_at(nt, a), l_at(nt, b))])),
+            ("complete", z3.ForAll([j], z3.Implies(z3.And(0 <= j, j < t, keep(l_at(POS0, j))),
+                                                   z3.Exists([a], z3.And(0 <= a, a < m, l_at(npos, a) == l_at(POS0, j)))),
+                                   patterns=[l_at(POS0, j)])),
+        ]
+
+    loops = {0: dict(inv=lambda c: _remove_timestamps._inv(c))}
+
+
+# ---------------------------------------------------------------- remove / update
+
+Unum = TDict(TInt, TInt)
+renum = z3.Function("renum_view", sort_of(LPt), sort_of(Unum), sort_of(LPt))  # ghost: the view after renumbering
+
+
+def sparse_all(ix, n, P, keep, parts=("meas", "tags", "fields", "time")):
+    f = ix.t
+    out = []
+    if "meas" in parts:
+        out += repr_meas(f["_measurements"], n, P, keep=keep)
+    if "tags" in parts:
+        out += repr_tags(f["_tags"], n, P, keep=keep)
+    if "fields" in parts:
+        out += repr_fields(f["_fields"], n, P, keep=keep)
+    if "time" in parts:
+        out += sparse_time(f["_timestamps"], f["_storage_pos_sorted_by_ts"], n, P, keep)
+    return out
+
+
+@contract("tinyflux.index.Index.remove")
+class _remove(Contract):
+    """C06/C02: after remove(R) every structure holds exactly the surviving old positions."""
+    params = dict(self=IX, r_items=SInt)
+    modifies = ("_num_items", "_tags", "_fields", "_measurements", "_timestamps", "_storage_pos_sorted_by_ts", "_R")
+
+    @staticmethod
+    def requires(c):
+        return repr_self(c.self) + [_r_in_range(c)]
+
+    @staticmethod
+    def ghost_exit(c):
+        return {"_R": c.r_items}
+
+    @staticmethod
+    def ensures(c):
+        n, P = view_of(c.old.self)
+        card = z3.Function("card_Int", sort_of(SInt), z3.IntSort())
+        return sparse_all(c.self, n, P, _keep(c)) + [
+            ("num_items", c.self.t["_num_items"].t == n - card(c.r_items.t)),
+            ("pending_removed", c.self.t["_R"].t == c.r_items.t),
+        ]
+
+
+def np_of(U):
+    return lambda i: z3.If(z3.Select(d_dom(U.t), i), z3.Select(d_val(U.t), i), i)
+
+
+def update_pre(c, parts):
+    """Shared precondition of update and its helpers (DESIGN A.1)."""
+    ix, U = c.self, c.u_items
+    n, P = view_of(ix)
+    R = ix.t["_R"].t
+    keep = lambda e: z3.Not(z3.Select(R, e))
+    npf = np_of(U)
+    n2 = ix.t["_num_items"].t
+    i, i2, p = z3.Int(fresh_name("i")), z3.Int(fresh_name("i2")), z3.Int(fresh_name("p"))
+    kept = lambda x: z3.And(0 <= x, x < n, keep(x))
+    return [("view_len", n >= 0), ("new_len", n2 >= 0)] + sparse_all(ix, n, P, keep, parts) + [
+        ("renumber_in_range", z3.ForAll([i], z3.Implies(kept(i), z3.And(0 <= npf(i), npf(i) < n2)), patterns=[z3.Select(d_dom(U.t), i)])),
+        ("renumber_monotone", z3.ForAll([i, i2], z3.Implies(z3.And(kept(i), kept(i2), i < i2), npf(i) < npf(i2)),
+                                        patterns=[z3.MultiPattern(z3.Select(d_dom(U.t), i), z3.Select(d_dom(U.t), i2))])),
+        ("renumber_onto", z3.ForAll([p], z3.Implies(z3.And(0 <= p, p < n2, S.Tr(p)), z3.Exists([i], z3.And(kept(i), npf(i) == p))), patterns=[S.Tr(p)])),
+    ]
+
+
+def new_view(c_old):
+    """(n', P', definitional facts) of the renumbered view."""
+    ix, U = c_old.self, c_old.u_items
+    n, P = view_of(ix)
+    R = ix.t["_R"].t
+    V = renum(ix.t["_S"].t, U.t)
+    npf = np_of(U)
+    n2 = ix.t["_num_items"].t
+    i = z3.Int(fresh_name("i"))
+    facts = [l_len(V) == n2,
+             z3.ForAll([i], z3.Implies(z3.And(0 <= i, i < n, z3.Not(z3.Select(R, i))), l_at(V, npf(i)) == P(i)),
+                       patterns=[z3.Select(d_dom(U.t), i)])]
+    return V, facts
+
+
+def _mapped_lists_inv(new, old, npf, done, elem=lambda x: x, setelem=None):
+    """processed keys hold the renumbered list, the others the old one; domain unchanged."""
+    k = z3.Const(fresh_name("k"), sort_of(old.ty.k))
+    j = z3.Int(fresh_name("j"))
+    nl, ol = z3.Select(d_val(new.t), k), z3.Select(d_val(old.t), k)
+    return [
+        ("domain_unchanged", d_dom(new.t) == d_dom(old.t)),
+        ("pending_unchanged", z3.ForAll([k], z3.Implies(z3.Not(done(k)), nl == ol), patterns=[nl])),
+        ("processed_len", z3.ForAll([k], z3.Implies(done(k), l_len(nl) == l_len(ol)), patterns=[nl])),
+        ("processed_mapped", z3.ForAll([k, j], z3.Implies(z3.And(done(k), 0 <= j, j < l_len(ol)), setelem(l_at(nl, j), l_at(ol, j))),
+                                       patterns=[l_at(nl, j), l_at(ol, j)])),
+    ]
+
+
+@contract("tinyflux.index.Index._update_measurements")
+class _update_measurements(Contract):
+    params = dict(self=IX, u_items=Unum)
+    modifies = ("_measurements",)
+
+    @staticmethod
+    def requires(c):
+        return update_pre(c, ("meas",))
+
+    @staticmethod
+    def ghost_defs(c):
+        V, facts = new_view(c)
+        return {"Vnew": (Val(LPt, V), facts)}
+
+    @staticmethod
+    def ensures(c):
+        V = c.Vnew.t
+        return repr_meas(c.self.t["_measurements"], l_len(V), lambda j: l_at(V, j))
+
+    @staticmethod
+    def _inv(c):
+        M0 = c.old.self.t["_measurements"]
+        li = c.loop(0)
+        done = lambda m: z3.And(z3.Select(d_dom(M0.t), m), li.extra["idx"](m) < li.t)
+        npf = np_of(c.u_items)
+        return _mapped_lists_inv(c.self.t["_measurements"], M0, npf, done, setelem=lambda a, b: a == npf(b))
+
+    loops = {0: dict(inv=lambda c: _update_measurements._inv(c))}
+
+
+@contract("tinyflux.index.Index._update_fields")
+class _update_fields(Contract):
+    params = dict(self=IX, u_items=Unum)
+    modifies = ("_fields",)
+
+    @staticmethod
+    def requires(c):
+        return update_pre(c, ("fields",))
+
+    @staticmethod
+    def ghost_defs(c):
+        V, facts = new_view(c)
+        return {"Vnew": (Val(LPt, V), facts)}
+
+    @staticmethod
+    def ensures(c):
+        V = c.Vnew.t
+        return repr_fields(c.self.t["_fields"], l_len(V), lambda j: l_at(V, j))
+
+    @staticmethod
+    def _inv(c):
+        F0 = c.old.self.t["_fields"]
+        li = c.loop(0)
+        done = lambda k: z3.And(z3.Select(d_dom(F0.t), k), li.extra["idx"](k) < li.t)
+        npf = np_of(c.u_items)
+        return _mapped_lists_inv(c.self.t["_fields"], F0, npf, done,
+                                 setelem=lambda a, b: z3.And(t_get(a, 0) == npf(t_get(b, 0)), t_get(a, 1) == t_get(b, 1)))
+
+    loops = {0: dict(inv=lambda c: _update_fields._inv(c))}
+
+
+def _mapped_tags_inv(new, old, npf, done):
+    """done(k, v): the posting list of (k, v) has been renumbered."""
+    k = z3.Const(fresh_name("k"), sort_of(TStr))
+    v = z3.Const(fresh_name("v"), sort_of(TagV))
+    j = z3.Int(fresh_name("j"))
+    ni, oi = z3.Select(d_val(new.t), k), z3.Select(d_val(old.t), k)
+    nl, ol = z3.Select(d_val(ni), v), z3.Select(d_val(oi), v)
+    return [
+        ("domain_unchanged", d_dom(new.t) == d_dom(old.t)),
+        ("inner_domain_unchanged", z3.ForAll([k], d_dom(ni) == d_dom(oi), patterns=[ni])),
+        ("pending_unchanged", z3.ForAll([k, v], z3.Implies(z3.Not(done(k, v)), nl == ol), patterns=[nl])),
+        ("processed_len", z3.ForAll([k, v], z3.Implies(done(k, v), l_len(nl) == l_len(ol)), patterns=[nl])),
+        ("processed_mapped", z3.ForAll([k, v, j], z3.Implies(z3.And(done(k, v), 0 <= j, j < l_len(ol)), l_at(nl, j) == npf(l_at(ol, j))),
+                                       patterns=[l_at(nl, j), l_at(ol, j)])),
+    ]
+
+
+@contract("tinyflux.index.Index._update_tags")
+class _update_tags(Contract):
+    params = dict(self=IX, u_items=Unum)
+    modifies = ("_tags",)
+
+    @staticmethod
+    def requires(c):
+        return update_pre(c, ("tags",))
+
+    @staticmethod
+    def ghost_defs(c):
+        V, facts = new_view(c)
+        return {"Vnew": (Val(LPt, V), facts)}
+
+    @staticmethod
+    def ensures(c):
+        V = c.Vnew.t
+        return repr_tags(c.self.t["_tags"], l_len(V), lambda j: l_at(V, j))
+
+    @staticmethod
+    def _present(c):
+        T0 = c.old.self.t["_tags"]
+        return lambda k, v: z3.And(z3.Select(d_dom(T0.t), k), z3.Select(d_dom(z3.Select(d_val(T0.t), k)), v))
+
+    @staticmethod
+    def _inv0(c):
+        T0 = c.old.self.t["_tags"]
+        l0 = c.loop(0)
+        pres = _update_tags._present(c)
+        done = lambda k, v: z3.And(pres(k, v), l0.extra["idx"](k) < l0.t)
+        return _mapped_tags_inv(c.self.t["_tags"], T0, np_of(c.u_items), done)
+
+    @staticmethod
+    def _inv1(c):
+        T0 = c.old.self.t["_tags"]
+        l0, l1 = c.loop(0), c.loop(1)
+        pres = _update_tags._present(c)
+        cur = c.tag_key.t
+        done = lambda k, v: z3.And(pres(k, v), z3.Or(l0.extra["idx"](k) < l0.t, z3.And(k == cur, l1.extra["idx"](v) < l1.t)))
+        return [("current_key", z3.And(z3.Select(d_dom(T0.t), cur), l0.extra["idx"](cur) == l0.t, c.tag_values.t == z3.Select(d_val(T0.t), cur)))] + \
+            _mapped_tags_inv(c.self.t["_tags"], T0, np_of(c.u_items), done)
+
+    loops = {0: dict(inv=lambda c: _update_tags._inv0(c)), 1: dict(inv=lambda c: _update_tags._inv1(c))}
+
+
+@contract("tinyflux.index.Index.update")
+class _update(Contract):
+    """C06/C02: renumbering after a removal re-establishes Repr for the compacted view."""
+    params = dict(self=IX, u_items=Unum)
+    modifies = ("_tags", "_fields", "_measurements", "_storage_pos_sorted_by_ts", "_S", "_R")
+
+    @staticmethod
+    def requires(c):
+        return update_pre(c, ("meas", "tags", "fields", "time"))
+
+    @staticmethod
+    def ghost_defs(c):
+        V, facts = new_view(c)
+        return {"Vnew": (Val(LPt, V), facts)}
+
+    @staticmethod
+    def ghost_exit(c):
+        return {"_S": c.Vnew, "_R": Val(SInt, z3.K(z3.IntSort(), z3.BoolVal(False)))}
+
+    @staticmethod
+    def lemmas(c):
+        # pigeonhole (assumed mathematical lemma, DESIGN 12): an injection [0,a) -> [0,b) gives a <= b
+        f0 = c.old.self.t
+        POS = f0["_storage_pos_sorted_by_ts"].t
+        npf = np_of(c.u_items)
+        return [("pigeonhole_positions", pigeonhole(l_len(POS), f0["_num_items"].t, lambda j: npf(l_at(POS, j)))),
+                ("pigeonhole_onto_positions", pigeonhole_onto(l_len(POS), f0["_num_items"].t, lambda j: npf(l_at(POS, j))))]
+
+    @staticmethod
+    def ensures(c):
+        return repr_self(c.self) + [("view_is_renumbered", c.self.t["_S"].t == c.Vnew.t)]
